@@ -224,6 +224,13 @@ impl<'tcx> Cx<'tcx> {
                 self.generic_args(args)
             );
         }
+        if let ty::Closure(did, _) = cty.kind() {
+            return format!(
+                "{{\"const\":{{\"ty\":{},\"closure\":{}}}}}",
+                esc(&tys),
+                esc(&self.def(*did))
+            );
+        }
         let env = TypingEnv::post_analysis(tcx, owner);
         // named constant?
         let named = match c.const_ {
@@ -305,6 +312,27 @@ impl<'tcx> Cx<'tcx> {
                                 "{{\"const\":{{\"ty\":{},\"bytes\":{}{}}}}}",
                                 esc(&tys),
                                 esc(&Self::bytes_hex(&b)),
+                                named_s
+                            );
+                        }
+                    }
+                }
+            }
+        }
+        // `&&str` (e.g. a promoted reference to a named string constant, as format arguments use)
+        if let Some(inner) = inner {
+            if let ty::Ref(_, inner2, _) = inner.kind() {
+                if inner2.is_str() {
+                    if let Ok(ConstValue::Scalar(mir::interpret::Scalar::Ptr(ptr, _))) =
+                        c.const_.eval(tcx, env, c.span)
+                    {
+                        let (prov, off) = ptr.prov_and_relative_offset();
+                        let ind = ConstValue::Indirect { alloc_id: prov.alloc_id(), offset: off };
+                        if let Some(b) = ind.try_get_slice_bytes_for_diagnostics(tcx) {
+                            return format!(
+                                "{{\"const\":{{\"ty\":{},\"str\":{}{}}}}}",
+                                esc(&tys),
+                                esc(&String::from_utf8_lossy(b)),
                                 named_s
                             );
                         }
